@@ -10,6 +10,7 @@ import (
 	"github.com/vulcand/oxy/v2/zverif/c14"
 	"github.com/vulcand/oxy/v2/zverif/c18"
 	"github.com/vulcand/oxy/v2/zverif/cb"
+	"github.com/vulcand/oxy/v2/zverif/ovl"
 )
 
 func init() {
@@ -25,6 +26,8 @@ func init() {
 	finders["c02s"] = c02.Find
 	parts["c01s"] = c01.RunSched
 	finders["c01s"] = c01.Find
+	parts["ovl"] = ovl.Run
+	finders["ovl"] = ovl.Find
 	parts["c04"] = c04.Run
 	finders["c04"] = c04.Find
 }
